@@ -17,6 +17,14 @@ Theorem C13_result_is_original_ast : forall E F names s,
 Proof. exact hook_ast_absorbs. Qed.
 Print Assumptions C13_result_is_original_ast.
 
+(* the AST transformer passes raise_on_error=False: it absorbs at EVERY log level, PYFLYBY_LOG_LEVEL=DEBUG
+   included (the other hooks re-raise in debug mode by design) *)
+Theorem C13_result_is_original_ast_any_level : forall E F names s,
+  exception_faults F -> exception_names names -> fault_at F SNamespaces = None ->
+  exists s', hook_ast E F names s = Ret s' tt.
+Proof. exact hook_ast_absorbs_any_level. Qed.
+Print Assumptions C13_result_is_original_ast_any_level.
+
 (* _ofind (inspection, autocall) and %prun *)
 Theorem C13_result_is_original_ofind_prun : forall E F names s,
   e_debug E = false -> exception_faults F -> exception_names names ->
